@@ -421,6 +421,9 @@ def normalise(mod):
     pinned = alpha.table().get(mod.name)
     if not pinned:
         return rep
+    import hashlib
+    if pinned.get("__digest__") == hashlib.sha1(mod.src.encode("utf-8")).hexdigest():
+        return rep          # byte-identical to the pinned module: nothing to normalise
     try:
         rep["inlined"] = inline_new_helpers(mod, pinned)
     except Exception:
